@@ -150,6 +150,11 @@ func (w *World) errorf(f string, a ...interface{}) {
 	w.Errors = append(w.Errors, fmt.Sprintf(f, a...))
 }
 
+// notef: something worth telling the user that is neither an error nor an assumption
+func (w *World) notef(f string, a ...interface{}) {
+	fmt.Fprintf(os.Stderr, "NOTE "+f+"\n", a...)
+}
+
 // ---------- constants ----------
 
 func constBig(c *ssa.Const) *big.Int {
